@@ -270,7 +270,8 @@ RefStep(T, s, t) == [(IF t.k = "junk" THEN Rej(s, "lexical", "") ELSE Disp(T, s,
 \* (reject class, kind of the offending token) pairs the implementation notices late
 LatePairs == { <<"bracket", "lp">>, <<"bracket", "comma">>, <<"mustFollow", "id">>,
                <<"surplusList", "lb">>, <<"badParam", "lb">>, <<"badParam", "lp">>,
-               <<"illTyped", "lb">>, <<"missingBlock", "semi">> }
+               <<"illTyped", "lb">>, <<"missingBlock", "semi">>,
+               <<"valueAfterTest", "lb">>, <<"malformedList", "semi">> }
 
 \* a command whose table holds only optional tags (keep) is "complete" from the
 \* start for the implementation: its tags are refused
